@@ -459,6 +459,22 @@ def run_check(prop: Prop, tier="quick", replay=None):
     return rc
 
 
+def _hard_stop(pool):
+    """Pool.terminate() can block for ever when a worker is stuck writing a large result into a full pipe (seen under
+    heavy machine load): run it in a watchdog thread and kill the workers if it does not return."""
+    import threading
+    t = threading.Thread(target=pool.terminate, daemon=True)
+    t.start()
+    t.join(8)
+    if t.is_alive():
+        for p in list(getattr(pool, "_pool", []) or []):
+            try:
+                p.kill()
+            except Exception:
+                pass
+        t.join(10)
+
+
 def _map_cases(prop, cases, deadline):
     """Yield (case, obs, fails, harness_err) for each case, in order; stops at deadline."""
     global _POOL_PROP
@@ -466,7 +482,8 @@ def _map_cases(prop, cases, deadline):
         _POOL_PROP = prop
         ctx = multiprocessing.get_context("fork")
         nproc = min(16, os.cpu_count() or 4)
-        with ctx.Pool(nproc) as pool:
+        pool = ctx.Pool(nproc)
+        try:
             chunk = max(1, min(32, len(cases) // (nproc * 4)))
             chunks = [cases[i:i + chunk] for i in range(0, len(cases), chunk)]
             it = pool.imap(_pool_worker, chunks, chunksize=1)
@@ -474,13 +491,13 @@ def _map_cases(prop, cases, deadline):
                 try:
                     res = it.next(timeout=max(5.0, deadline - time.time() + 60))
                 except multiprocessing.TimeoutError:
-                    pool.terminate()
                     return
                 for case, (obs, fails, herr) in zip(ch, res):
                     yield case, obs, fails, herr
                 if time.time() > deadline:
-                    pool.terminate()
                     return
+        finally:
+            _hard_stop(pool)
     else:
         for case in cases:
             obs, fails, herr = _worker((prop, case))
